@@ -133,6 +133,36 @@ class StochHooks(Hooks):
                         if od == d:
                             it.violate('C18.differ', {'fn': fn}, '%s returned the identical frame for seeds %s and %s' % (fn, other, sd), i)
                 seeds[sd] = d
+        if fn == 'foreign.seeded':
+            it.probe('second_interpreter')
+            it.probe('check:repro')
+            it.fault('restart')
+            if not out.ok:
+                it.violate('C18.repro', {'fn': 'second-interpreter', 'what': 'raised'}, 'seeded models in a second interpreter: %r' % (out.exc,), i)
+            else:
+                for call, (here, there) in sorted(out.value.items()):
+                    if here != there:
+                        it.violate('C18.repro', {'fn': call.split('/')[0], 'what': 'differs-between-interpreters'},
+                                   '%s gives one frame in an interpreter started with PYTHONHASHSEED=0 and another with PYTHONHASHSEED=%s: not a '
+                                   'function of its arguments and seed' % (call, ev['a'][0]), i)
+                        break
+        if fn == 'series.read_noise' and out.ok:
+            # per-pixel statistics over many seeds, on regions of a few pixels (where a per-frame correction would show)
+            x = np.asarray(out.value, dtype=float)
+            npix, sigma, ns = int(ev['a'][0]), float(ev['a'][1]), x.shape[0]
+            it.probe('read_noise_small_region_series')
+            it.probe('check:moments')
+            n = x.size
+            mean, sd_ = float(x.mean()), float(x.std(ddof=0))
+            if abs(mean) > 7 * sigma / np.sqrt(n) + 1e-12:
+                it.violate('C18.moments', {'fn': 'read_noise', 'what': 'mean', 'region': 'small'},
+                           'mean %g over %d readouts of %d pixel(s) (7 s.e. = %g)' % (mean, ns, npix, 7 * sigma / np.sqrt(n)), i)
+            # chi-square bound for the standard deviation about the true mean 0: sd^2 * n / sigma^2 ~ chi2(n), s.e. of sd ~ sigma / sqrt(2n)
+            rms0 = float(np.sqrt(np.mean(x ** 2)))
+            if abs(rms0 - sigma) > 7 * sigma / np.sqrt(2 * n):
+                it.violate('C18.moments', {'fn': 'read_noise', 'what': 'sigma', 'region': 'small'},
+                           'r.m.s. %g about zero for requested %g over %d readouts of %d pixel(s) (7 s.e. = %g)'
+                           % (rms0, sigma, ns, npix, 7 * sigma / np.sqrt(2 * n)), i)
         if fn == 'shot_noise':
             self._shot(it, i, ev, out)
         elif fn == 'read_noise' and out.ok:
@@ -312,7 +342,7 @@ class StochasticScenario(Scenario):
                    'seed=None (OS entropy) is never used: the simulator always passes seeds']
     must_hit = ['seeded_after_reseed', 'psd_nonsquare', 'psd_square', 'shot_bad_signal:gaussian', 'shot_bad_signal:poisson',
                 'moments:shot_poisson', 'moments:shot_gaussian', 'moments:read', 'dark_no_fpn', 'cosmic_hit', 'layout_twin',
-                'shot_tiny_negative', 'dark_rate_at_an_edge', 'pristine_process_comparison', 'shot_frame_edited_between_calls', 'seed_beyond_32_bits', 'one_argument_twin', 'shot_zero_signal_pixels', 'read_noise_megapixel_frame', 'dark_rate_map', 'seed_in_a_caller_owned_list']
+                'shot_tiny_negative', 'dark_rate_at_an_edge', 'pristine_process_comparison', 'shot_frame_edited_between_calls', 'seed_beyond_32_bits', 'one_argument_twin', 'shot_zero_signal_pixels', 'read_noise_megapixel_frame', 'dark_rate_map', 'seed_in_a_caller_owned_list', 'second_interpreter', 'read_noise_small_region_series']
     probe_names = must_hit + ['coldwarm_audit']
 
     # ---------------------------------------------------------------- generation
@@ -575,6 +605,10 @@ class StochasticScenario(Scenario):
             E('read_noise', ['@IMG', 7.5], {'seed': 3}, t={'distinct_expected': True})
             E('read_noise', ['@IMG', 7.5], {'seed': 4}, t={'distinct_expected': True})
             E('dark_current', [17.9], {'shape': [5, 7], 'fpn_factor': 0, 'seed': 1})
+            if not big:
+                E('foreign.seeded', [101 + verif_seed % 11])
+                for npix_ in (1, 2, 4):
+                    E('series.read_noise', [npix_, 7.5, 1500, 1000 * (verif_seed + 1) + npix_])
             for method in ('gaussian', 'poisson'):
                 E('shot_noise', ['@IMGG'], {'method': method, 'seed': 31})
                 E('shot_noise', ['@ZER'], {'method': method, 'seed': 31})
